@@ -397,3 +397,30 @@ Definition check_noop (c : nat * option N * bool) : bool :=
   Nat.eqb (fst (fst c)) 0 && match snd (fst c) with None => true | Some _ => false end && negb (snd c).
 Definition reload_noop (g : cfg) (al : alg) (now_s : N) (ord : list N) (h1 h2 : list cevent) : bool :=
   check_noop (check_files (compacted_files g al now_s ord h1 h2)).
+
+(* histories of writes and deletes only *)
+Definition no_pad (h : list cevent) : bool :=
+  forallb (fun ev => match snd ev with CPad _ => false | _ => true end) h.
+
+(* ---------- "the last operation on the key is a delete" ---------- *)
+Definition mentions (id : N) (ev : cevent) : bool :=
+  match snd ev with
+  | CWrite n => n_id n =? id
+  | CDelete k _ => k =? id
+  | CPad _ => false
+  end.
+
+Fixpoint last_is_delete (id : N) (h : list cevent) : bool :=
+  match h with
+  | [] => false
+  | ev :: h' =>
+      if existsb (mentions id) h' then last_is_delete id h'
+      else match snd ev with CDelete k _ => k =? id | _ => false end
+  end.
+
+(* no empty payload was written to this key *)
+Definition no_empty_on (id : N) (h : list cevent) : bool :=
+  forallb (fun ev => match snd ev with
+                     | CWrite n => negb (n_id n =? id) || negb (blen (n_data n) =? 0)
+                     | _ => true
+                     end) h.
